@@ -168,8 +168,11 @@ func (e *kvElection) handleWatchEvent(entry Entry) {
 
 	// If we're the leader, check if we're still the leader
 	if e.IsLeader() {
-		// If the new leader ID is different, we've been taken over
-		if newLeaderID != e.cfg.InstanceID {
+		// If the new leader ID is different, we've been taken over - unless the
+		// event is older than our own record: watch deliveries can lag, and an
+		// event about a previous leader's record (lower revision than the one
+		// we hold) says nothing about the record we own now.
+		if newLeaderID != e.cfg.InstanceID && entry.Revision() > e.revision.Load() {
 			log := e.getLogger()
 			log.Warn("leadership_lost_via_watcher",
 				append(e.logWithContext(e.ctx),
